@@ -105,9 +105,15 @@ def build_argv(spec: dict[str, Any], root: str) -> list[str]:
     return argv
 
 
+def _base(spec: dict[str, Any], root: str) -> str:
+    """Directory the relative names of a spec are relative to: the sandbox, or the sub-directory the
+    history has changed into (spec["cwd"], see the 'chdir' operation)."""
+    return os.path.join(root, spec["cwd"]) if spec.get("cwd") else root
+
+
 def _p(rel: str, spec: dict[str, Any], root: str) -> str:
     if spec.get("abs_paths"):
-        return os.path.join(root, rel)
+        return os.path.join(_base(spec, root), rel)
     return rel
 
 
@@ -136,7 +142,7 @@ def run_exec(root: str, spec: dict[str, Any], roles: dict[str, str], knobs: dict
         if entry == "string":
             text = spec.get("text")
             if text is None:
-                data = simenv.read_real(os.path.join(root, spec["src"]))
+                data = simenv.read_real(os.path.join(_base(spec, root), spec["src"]))
                 text = (data or b"").decode("utf-8", errors="replace")
             ret = program.assemble_string_with_emitter(text, src, writer)  # src: relative or absolute name (abs_paths)
         elif entry == "with_emitter":
@@ -173,6 +179,25 @@ def run_exec(root: str, spec: dict[str, Any], roles: dict[str, str], knobs: dict
             _cg.range = _range  # type: ignore[attr-defined]
         except Exception:  # noqa: BLE001
             pass
+    # process environment the simulator decides: environment variables and the terminal the process is
+    # attached to (knobs "environ": {name: value-or-None}, "terminal": [columns, lines] or "none")
+    saved_environ: dict[str, str | None] = {}
+    for name, val in (knobs.get("environ") or {}).items():
+        saved_environ[name] = os.environ.get(name)
+        if val is None:
+            os.environ.pop(name, None)
+        else:
+            os.environ[name] = val
+    real_gts = os.get_terminal_size
+    term = knobs.get("terminal")
+    if term is not None:
+
+        def _gts(fd: int = 1) -> os.terminal_size:
+            if term == "none":
+                raise OSError(25, "Inappropriate ioctl for device")
+            return os.terminal_size((int(term[0]), int(term[1])))
+
+        os.get_terminal_size = _gts  # type: ignore[assignment]
     with cap, env:
         blocking.arm()
         try:
@@ -180,6 +205,12 @@ def run_exec(root: str, spec: dict[str, Any], roles: dict[str, str], knobs: dict
         finally:
             blocking.disarm()
     sys.argv = saved_argv
+    os.get_terminal_size = real_gts  # type: ignore[assignment]
+    for name, old in saved_environ.items():
+        if old is None:
+            os.environ.pop(name, None)
+        else:
+            os.environ[name] = old
 
     out: dict[str, Any] = {"entry": entry, "steps": steps, "max_loop_span": guard["max_span"]}
     if timed_out or isinstance(exc, StepBudgetExceeded):
@@ -235,7 +266,7 @@ def run_exec(root: str, spec: dict[str, Any], roles: dict[str, str], knobs: dict
     for key in ("out", "symfile"):
         rel = spec.get(key)
         if rel:
-            data = simenv.read_real(os.path.join(root, rel))
+            data = simenv.read_real(os.path.join(_base(spec, root), rel))
             outs[rel] = None if data is None else zlib.compress(data, 1)
     out["outs"] = outs
     # digest of the output files with the (pid-dependent) sandbox path scrubbed: a symbol file can
@@ -287,6 +318,11 @@ def run_history(root: str, files: dict[str, bytes], roles: dict[str, str], ops: 
             except OSError:
                 pass
             results.append({"kind": "file_deleted"})
+        elif kind == "chdir":
+            # the *caller* changes the working directory between two assemblies (a driver that visits
+            # one project directory after the other)
+            os.chdir(os.path.join(root, op.get("path") or ""))
+            results.append({"kind": "chdir"})
         elif kind == "chmod":
             os.chmod(os.path.join(root, op["path"]), op["mode"])
             results.append({"kind": "chmod"})
@@ -308,3 +344,54 @@ def execute(files: dict[str, bytes], roles: dict[str, str], ops: list[dict[str, 
 
 def execute_one(files: dict[str, bytes], roles: dict[str, str], spec: dict[str, Any], knobs: dict[str, Any] | None = None, faults: list[dict[str, Any]] | None = None, **kw: Any) -> dict[str, Any]:
     return execute(files, roles, [{"op": "exec", "spec": spec, "knobs": knobs or {}, "faults": faults or []}], **kw)[0]
+
+
+# ---------------------------------------------------------------------------
+# fresh interpreters: the interpreter's own settings are part of the environment (hash seed, -O, ...)
+
+
+def _fresh_main(path: str) -> None:
+    """Entry for a run in a fresh interpreter (executed as a subprocess by run_fresh)."""
+    import pickle
+
+    from . import core
+
+    with open(path, "rb") as f:
+        root, files, roles, ops = pickle.load(f)
+    core.import_repo()
+    res = run_history(root, files, roles, ops)
+    sys.stdout.buffer.write(pickle.dumps(res))
+
+
+def run_fresh_ops(files: dict[str, bytes], roles: dict[str, str], ops: list[dict[str, Any]], hashseed: str = "0", pyflags: list[str] | None = None) -> list[dict[str, Any]]:
+    """The operations in a brand-new interpreter process started with the given PYTHONHASHSEED and
+    interpreter flags (e.g. ["-O"]: asserts stripped).  The process is as deterministic as a fork: same
+    files, same seed, same flags -> same result."""
+    import pickle
+    import subprocess
+
+    from . import core
+
+    root = simenv.new_sandbox()
+    try:
+        job = os.path.join(root, "__job.pickle")
+        work = os.path.join(root, "w")
+        os.makedirs(work)
+        with open(job, "wb") as f:
+            pickle.dump((work, files, roles, ops), f)
+        env = dict(os.environ, PYTHONHASHSEED=hashseed, PYTHONDONTWRITEBYTECODE="1", VERIF_REPO=core.REPO)
+        env.pop("PYTHONOPTIMIZE", None)
+        code = "import sys; sys.path.insert(0, %r); from sim.entries import _fresh_main; _fresh_main(%r)" % (core.VERIF_DIR, job)
+        try:
+            p = subprocess.run(["/venv/bin/python", "-B"] + list(pyflags or []) + ["-c", code], env=env, capture_output=True, timeout=120, cwd=core.VERIF_DIR)
+        except subprocess.TimeoutExpired:
+            raise core.ChildTimeout("fresh interpreter run exceeded 120 s")
+        if p.returncode != 0 or not p.stdout:
+            raise core.HarnessError(f"fresh interpreter run failed: rc={p.returncode} stderr={p.stderr[-500:]!r}")
+        return pickle.loads(p.stdout)
+    finally:
+        simenv.drop_sandbox(root)
+
+
+def run_fresh(files: dict[str, bytes], roles: dict[str, str], spec: dict[str, Any], hashseed: str = "0", pyflags: list[str] | None = None) -> dict[str, Any]:
+    return run_fresh_ops(files, roles, [{"op": "exec", "spec": spec}], hashseed, pyflags)[0]
